@@ -2,7 +2,7 @@ SPECIFICATION Spec
 CONSTANTS
   NX = 5
   Limit = 3
-  Ends = {"complete", "cut", "extra", "close-header", "drop"}
+  Ends = {"complete", "cut", "extra", "close-header", "drop", "hcut"}
   DEV_EofIsCleanEnd = TRUE
 INVARIANTS WithinLimit NoDirtyReuse CompleteOrError EmitCase
 CHECK_DEADLOCK FALSE
